@@ -201,31 +201,13 @@ def step_installs(index: RepoIndex, rep, rule: str) -> None:
               'modified copy')
 
 
-def run(index: RepoIndex, rep) -> None:
+def state_machine(index: RepoIndex, rep, rule: str) -> None:
+    """InnerEnv.reset / step: every write of _state is one functional_reset() / component 0
+    of one functional_step(self.state, action), installed on every path and followed by the
+    invalidation of the memoised observation; step returns that call's reward and flag
+    (C04.R1; shared with the properties quantified over driven histories)"""
     from ..view import view
-    rep.rule('C04.R1', 'every write of _state comes from one functional_reset()/'
-             'functional_step(self.state, action) call and is followed on every path by '
-             '_observation = None; step returns that call\'s reward and flag', floor=5)
-    rep.rule('C04.R2', 'observation property: computes only when the memo is None, one '
-             'functional_observation(self.state) call stored into the memo, returns the memo',
-             floor=4)
-    rep.rule('C04.R3', 'state property raises when _state is None, else returns _state', floor=2)
-    rep.rule('C04.R4', 'who may write: nothing outside inner_env.py assigns _state; '
-             '_observation may only be assigned None elsewhere; functional methods touch '
-             'neither field', floor=5)
-    rep.rule('C04.R5', 'OuterEnv delegates reset/step and converts state/observation', floor=6)
-
-    rep.rule('C04.R6', 'the seed alone decides the trajectory: every call that may draw '
-             'forwards the environment\'s generator (C02.R3), and GridWorld hands states and '
-             'observations through unchanged', floor=20)
-    from .c02 import rng_forwarding
-    from .wiring import observation_passthrough, reset_passthrough, step_on_callers_state
-    rng_forwarding(index, rep, 'C04.R6')
-    reset_passthrough(index, rep, 'C04.R6')
-    observation_passthrough(index, rep, 'C04.R6')
-    step_on_callers_state(index, rep, 'C04.R6')
     cls = index.cls(INNER, 'InnerEnv')
-    # ---------------------------------------------------------------- R1
     # private methods that are inlined into their callers are judged at the call sites
     # a public setter (`set_state(state)`: stores its own parameter and invalidates the memo)
     # is an entry point of its own; reset/step written through it are read with it inlined
@@ -263,7 +245,7 @@ def run(index: RepoIndex, rep) -> None:
         fcalls = [e for e in w.events if e.kind == 'call'
                   and src(e.node.func) in ('self.functional_reset', 'self.functional_step')]
         if not helper_only:
-            rep.check(len(fcalls) == 1 and not fcalls[0].loops, 'C04.R1', INNER, m.short,
+            rep.check(len(fcalls) == 1 and not fcalls[0].loops, rule, INNER, m.short,
                       m.node.lineno, '; '.join(src(c.node) for c in fcalls),
                       f'{m.short} calls the functional interface {len(fcalls)} times (a second '
                       f'call consumes randomness and desynchronises the trajectory)',
@@ -279,7 +261,7 @@ def run(index: RepoIndex, rep) -> None:
                 ok = len(a) == 2 and a[0] in ('self.state', 'self._state') and a[1] in params \
                     and not v.value.keywords
             if not helper_only:
-                rep.check(ok, 'C04.R1', INNER, m.short, e.line, src(e.stmt),
+                rep.check(ok, rule, INNER, m.short, e.line, src(e.stmt),
                           f'_state is assigned `{vs}`, not the result of functional_reset() / '
                           f'component 0 of functional_step(self.state, <action>)',
                           'state source')
@@ -289,7 +271,7 @@ def run(index: RepoIndex, rep) -> None:
             exits = [x for x in w.events if x.kind in ('return', 'raise')
                      and x.order > e.order and (not inv or x.order < inv[0].order)]
             rep.check(bool(inv) and not [x for x in exits if inv and x.order < inv[0].order]
-                      and bool(inv), 'C04.R1', INNER, m.short, e.line, src(e.stmt),
+                      and bool(inv), rule, INNER, m.short, e.line, src(e.stmt),
                       f'{m.short}: a path from the write of _state reaches the exit without '
                       f'`self._observation = None` (stale observation)', 'invalidation')
         # the result of the functional call is installed on every path that returns normally:
@@ -304,7 +286,7 @@ def run(index: RepoIndex, rep) -> None:
                 guards.append(('true',))
             for gd in guards:
                 covered = any(implies_syntactic(gd, e.guard) for e in st)
-                rep.check(covered, 'C04.R1', INNER, m.short, st[0].line, src(st[0].stmt),
+                rep.check(covered, rule, INNER, m.short, st[0].line, src(st[0].stmt),
                           f'{m.short}: the state returned by the functional call is stored only '
                           f'when `{show(strip_iter(st[0].guard))}`; on the other paths the '
                           f'environment keeps its old state (states that compare equal need not '
@@ -317,10 +299,10 @@ def run(index: RepoIndex, rep) -> None:
             good = f'({call_s}[1], {call_s}[2])'
             for r in rets:
                 rs = src(w.expand(r.value))
-                rep.check(rs == good, 'C04.R1', INNER, m.short, r.line, src(r.stmt),
+                rep.check(rs == good, rule, INNER, m.short, r.line, src(r.stmt),
                           f'{m.short} returns `{rs}`, not (reward, flag) = components 1, 2 of '
                           f'the functional_step call', 'step result')
-            rep.check(bool(rets), 'C04.R1', INNER, m.short, m.node.lineno, m.short,
+            rep.check(bool(rets), rule, INNER, m.short, m.node.lineno, m.short,
                       f'{m.short} does not return the reward and flag', 'step returns')
     if writers < 2:
         raise AnalysisError(f'InnerEnv: {writers} methods write _state, floor is 2 (reset, step)')
@@ -330,10 +312,85 @@ def run(index: RepoIndex, rep) -> None:
             for n in ast.walk(mod.tree):
                 if isinstance(n, ast.Attribute) and n.attr == pw and \
                         not (mod.relpath == INNER and src(n.value) == 'self'):
-                    rep.violation('C04.R1', mod.relpath, '<module>', n.lineno, src(n),
+                    rep.violation(rule, mod.relpath, '<module>', n.lineno, src(n),
                                   f'the internal state setter {pw} is used outside '
                                   f'InnerEnv.reset/step (the state would change without a '
                                   f'functional call)')
+
+
+
+def outer_delegation(index: RepoIndex, rep, rule: str) -> None:
+    """OuterEnv.reset / step delegate to the inner environment exactly once and return its
+    answer (C04.R5)"""
+    from ..view import view
+    oc = index.cls(OUTER, 'OuterEnv')
+    m = oc.methods.get('reset')
+    if m is None:
+        raise AnalysisError('anchor vanished: OuterEnv.reset')
+    node, w, _ = view(index, m)
+    calls = [src(w.expand(e.node)) for e in w.events if e.kind == 'call']
+    rep.check(calls.count('self.inner_env.reset()') == 1 and len(calls) == 1, rule, OUTER,
+              'OuterEnv.reset', m.node.lineno, '; '.join(calls),
+              'OuterEnv.reset does not delegate to inner_env.reset() exactly once',
+              'delegate reset')
+    m = oc.methods.get('step')
+    if m is None:
+        raise AnalysisError('anchor vanished: OuterEnv.step')
+    node, w, _ = view(index, m)
+    p = [a.arg for a in m.node.args.args[1:]]
+    rets = [src(w.expand(e.value)) for e in w.events if e.kind == 'return' and e.value is not None]
+    calls = [src(w.expand(e.node)) for e in w.events if e.kind == 'call']
+    want = f'self.inner_env.step({p[0]})' if p else ''
+    tup = f'({want}[0], {want}[1])'
+    if p and not (rets in ([want], [tup]) and calls == [want]):
+        # an index accepted as well as an Action (`if not isinstance(action, Action): action =
+        # self.action_space.int_to_action(action)`): read for a caller that gives an Action
+        wo = walk_function(m.node)
+        arg_a = outer_step_argument(index, True)
+        arg_i = outer_step_argument(index, False)
+        inner = [e for e in wo.events if e.kind == 'call'
+                 and src(e.node.func) == 'self.inner_env.step']
+        others = [src(e.node) for e in wo.events if e.kind == 'call' and e not in inner
+                  and not src(e.node.func).startswith('isinstance')]
+        rets_o = [e for e in wo.events if e.kind == 'return' and e.value is not None]
+        same_call = len(rets_o) == 1 and src(wo.expand(rets_o[0].value, stop=[p[0]])) in (
+            src(inner[0].node), f'({src(inner[0].node)}[0], {src(inner[0].node)}[1])')
+        if arg_a == p[0] and same_call and \
+                arg_i == f'self.action_space.int_to_action({p[0]})' and \
+                others == [f'self.action_space.int_to_action({p[0]})']:
+            rets, calls = [want], [want]
+    rep.check(rets in ([want], [tup]) and calls == [want], rule, OUTER, 'OuterEnv.step',
+              m.node.lineno, '; '.join(rets),
+              f'OuterEnv.step does not return inner_env.step(action) of exactly one call',
+              'delegate step')
+
+
+def run(index: RepoIndex, rep) -> None:
+    from ..view import view
+    rep.rule('C04.R1', 'every write of _state comes from one functional_reset()/'
+             'functional_step(self.state, action) call and is followed on every path by '
+             '_observation = None; step returns that call\'s reward and flag', floor=5)
+    rep.rule('C04.R2', 'observation property: computes only when the memo is None, one '
+             'functional_observation(self.state) call stored into the memo, returns the memo',
+             floor=4)
+    rep.rule('C04.R3', 'state property raises when _state is None, else returns _state', floor=2)
+    rep.rule('C04.R4', 'who may write: nothing outside inner_env.py assigns _state; '
+             '_observation may only be assigned None elsewhere; functional methods touch '
+             'neither field', floor=5)
+    rep.rule('C04.R5', 'OuterEnv delegates reset/step and converts state/observation', floor=6)
+
+    rep.rule('C04.R6', 'the seed alone decides the trajectory: every call that may draw '
+             'forwards the environment\'s generator (C02.R3), and GridWorld hands states and '
+             'observations through unchanged', floor=20)
+    from .c02 import rng_forwarding
+    from .wiring import observation_passthrough, reset_passthrough, step_on_callers_state
+    rng_forwarding(index, rep, 'C04.R6')
+    reset_passthrough(index, rep, 'C04.R6')
+    observation_passthrough(index, rep, 'C04.R6')
+    step_on_callers_state(index, rep, 'C04.R6')
+    cls = index.cls(INNER, 'InnerEnv')
+    # ---------------------------------------------------------------- R1
+    state_machine(index, rep, 'C04.R1')
 
     # ---------------------------------------------------------------- R2
     m = cls.methods.get('observation')
@@ -500,45 +557,7 @@ def run(index: RepoIndex, rep) -> None:
                   '; '.join(src(e.stmt) for e in raises) or 'no raise',
                   f'OuterEnv.{prop} does not raise when the representation is missing',
                   f'raise {prop}')
-    m = oc.methods.get('reset')
-    if m is None:
-        raise AnalysisError('anchor vanished: OuterEnv.reset')
-    node, w, _ = view(index, m)
-    calls = [src(w.expand(e.node)) for e in w.events if e.kind == 'call']
-    rep.check(calls.count('self.inner_env.reset()') == 1 and len(calls) == 1, 'C04.R5', OUTER,
-              'OuterEnv.reset', m.node.lineno, '; '.join(calls),
-              'OuterEnv.reset does not delegate to inner_env.reset() exactly once',
-              'delegate reset')
-    m = oc.methods.get('step')
-    if m is None:
-        raise AnalysisError('anchor vanished: OuterEnv.step')
-    node, w, _ = view(index, m)
-    p = [a.arg for a in m.node.args.args[1:]]
-    rets = [src(w.expand(e.value)) for e in w.events if e.kind == 'return' and e.value is not None]
-    calls = [src(w.expand(e.node)) for e in w.events if e.kind == 'call']
-    want = f'self.inner_env.step({p[0]})' if p else ''
-    tup = f'({want}[0], {want}[1])'
-    if p and not (rets in ([want], [tup]) and calls == [want]):
-        # an index accepted as well as an Action (`if not isinstance(action, Action): action =
-        # self.action_space.int_to_action(action)`): read for a caller that gives an Action
-        wo = walk_function(m.node)
-        arg_a = outer_step_argument(index, True)
-        arg_i = outer_step_argument(index, False)
-        inner = [e for e in wo.events if e.kind == 'call'
-                 and src(e.node.func) == 'self.inner_env.step']
-        others = [src(e.node) for e in wo.events if e.kind == 'call' and e not in inner
-                  and not src(e.node.func).startswith('isinstance')]
-        rets_o = [e for e in wo.events if e.kind == 'return' and e.value is not None]
-        same_call = len(rets_o) == 1 and src(wo.expand(rets_o[0].value, stop=[p[0]])) in (
-            src(inner[0].node), f'({src(inner[0].node)}[0], {src(inner[0].node)}[1])')
-        if arg_a == p[0] and same_call and \
-                arg_i == f'self.action_space.int_to_action({p[0]})' and \
-                others == [f'self.action_space.int_to_action({p[0]})']:
-            rets, calls = [want], [want]
-    rep.check(rets in ([want], [tup]) and calls == [want], 'C04.R5', OUTER, 'OuterEnv.step',
-              m.node.lineno, '; '.join(rets),
-              f'OuterEnv.step does not return inner_env.step(action) of exactly one call',
-              'delegate step')
+    outer_delegation(index, rep, 'C04.R5')
 
 
 def _is_env_receiver(e: ast.AST) -> bool:
